@@ -232,7 +232,7 @@ def _openfile(instance, filething, filename, fileobj, writable, create):
                 raise TypeError("expected __fspath__() to return a filename")
         else:
             filename = filething
-    elif hasattr(filename, "__fspath__"):
+    if hasattr(filename, "__fspath__"):
         # a path object given through the filename keyword
         filename = filename.__fspath__()
         if not isinstance(filename, (bytes, str)):
